@@ -24,7 +24,6 @@ import polylib as PL
 
 ID = "C08"
 LEVEL = "proof"
-NOT_CLAIMED = "in progress"
 MODEL_TARGETS = ["theories/LoopAn.vo"]
 TRANSLATORS = ["semiring", "rules"]
 LEVEL_TEXT = ("Structural clauses PROVED in Coq (coq/props/C08.v) about the executable model LoopAn.v of LoopAnalysis.inspect / get_result / "
@@ -730,6 +729,7 @@ def run(ctx):
     tags = collections.Counter()
     coq_cases, samples = [], []
     typed_seen = set()
+    shrunk = set()
     nloops = nested = whole_fail = nexc = 0
     depth_hist = collections.Counter()
     degree_hist = collections.Counter()
@@ -773,9 +773,10 @@ def run(ctx):
                                                                       for v, r in rec["results"].items()}})
             # shrink new kinds of failures (cheap, bounded)
             for fobj in failing[before:]:
-                if fobj["sig"][1] in ("dependency-invalid", "early-exit-partial"):
-                    continue
                 sig = fobj["sig"]
+                if sig[1] in ("dependency-invalid", "early-exit-partial") or tuple(sig) in shrunk:
+                    continue
+                shrunk.add(tuple(sig))
                 try:
                     small = shrink_src(src, lambda s: any(g["sig"] == sig for g in failures_of(s, strict)[1]), budget=25)
                     if small != src:
